@@ -60,6 +60,17 @@ THEOREMS = [
     "SynKit.C10.fullStatementMol",
     "SynKit.Repr.totalH_implicitHydrogen",
     "SynKit.Repr.implicitHydrogen_free_hydrogen_stays",
+    "SynKit.ReprOpt.hToExplicitG_totalH",
+    "SynKit.ReprOpt.hToExplicitG_closed_form",
+    "SynKit.ReprOpt.hToExplicitG_all",
+    "SynKit.ReprOpt.hToExplicitG_restores",
+    "SynKit.ReprOpt.implicitHydrogenReindex_relabel",
+    "SynKit.ReprOpt.totalH_implicitHydrogenReindex",
+    "SynKit.ReprOpt.molToGraphOpt_default",
+    "SynKit.ReprOpt.molToGraphOpt_useIdx",
+    "SynKit.ReprOpt.molToGraphOpt_drop",
+    "SynKit.ReprOpt.itsToGmlX_false",
+    "SynKit.ReprOpt.itsToGmlX_roundtrip_partial",
 ]
 
 NODE_KEYS = ["element", "aromatic", "hcount", "charge", "neighbors", "atom_map"]
@@ -1739,7 +1750,7 @@ def its_from_json(j):
 def run(ctx):
     ctx.trusted = [
         "Lean 4.33 kernel; axioms of the property theorems as listed in obligation_list",
-        "hand-written models SynKitModel/Repr.lean, SynKitModel/Gml.lean and (options, no theorem of their own) SynKitModel/ReprOpt.lean, "
+        "hand-written models SynKitModel/Repr.lean, SynKitModel/Gml.lean and (options; their theorems are in Props/C10.lean, namespace ReprOpt) SynKitModel/ReprOpt.lean, "
         "tied to /repo by this correspondence run",
         "RDKit: SMILES parsing/printing, sanitisation, aromaticity perception, canonical SMILES (a molecule is its atom/bond table; "
         "canonical SMILES with stereo stripped decides 'same molecule')",
